@@ -14,15 +14,15 @@ echo "changed packages: $pkgs"; echo "demo: $demos"
 out=/verif/seeded/$name; mkdir -p $out
 log=$out/confirm.log; : > $log
 echo "## demo WITH change (must fail)" >> $log
-go test ${SEED_GOFLAGS:-} -count=1 -vet=off -run 'TestSeedDemo' $demopkgs >> $log 2>&1; with=$?
+go test ${SEED_GOFLAGS:-} -count=1 -vet=off -run "${DEMO_RE:-TestSeedDemo}" $demopkgs >> $log 2>&1; with=$?
 git apply -R /tmp/$name.patch
 echo "## demo WITHOUT change (must pass)" >> $log
-go test ${SEED_GOFLAGS:-} -count=1 -vet=off -run 'TestSeedDemo' $demopkgs >> $log 2>&1; without=$?
+go test ${SEED_GOFLAGS:-} -count=1 -vet=off -run "${DEMO_RE:-TestSeedDemo}" $demopkgs >> $log 2>&1; without=$?
 echo "## existing tests WITHOUT change" >> $log
-go test ${SEED_GOFLAGS:-} -count=1 -vet=off -skip 'TestSeedDemo' $pkgs 2>&1 | grep -E '^(ok|FAIL|---)' | sort > /tmp/$name.base
+go test ${SEED_GOFLAGS:-} -count=1 -vet=off -skip "${DEMO_RE:-TestSeedDemo}" $pkgs 2>&1 | grep -E '^(ok|FAIL|---)' | sort > /tmp/$name.base
 git apply /tmp/$name.patch
 echo "## existing tests WITH change" >> $log
-go test ${SEED_GOFLAGS:-} -count=1 -vet=off -skip 'TestSeedDemo' $pkgs 2>&1 | grep -E '^(ok|FAIL|---)' | sort > /tmp/$name.with
+go test ${SEED_GOFLAGS:-} -count=1 -vet=off -skip "${DEMO_RE:-TestSeedDemo}" $pkgs 2>&1 | grep -E '^(ok|FAIL|---)' | sort > /tmp/$name.with
 sed -E 's/[0-9.]+s$//; s/\([0-9.]+s\)//' /tmp/$name.base > /tmp/$name.base2; sed -E 's/[0-9.]+s$//; s/\([0-9.]+s\)//' /tmp/$name.with > /tmp/$name.with2
 cat /tmp/$name.with >> $log
 same=no; diff -q /tmp/$name.base2 /tmp/$name.with2 >/dev/null && same=yes
